@@ -27,6 +27,10 @@ func runC17(c *Ctx) {
 	c.Rule("R17h", "alterTable builders: the reversible flag is monotone: every assignment is the constant false or a conjunction that includes the flag itself", 3)
 	c.Rule("R17g", "planner statements: in every migrate.Change literal that sets both Cmd and Reverse, each object path named by the reverse statement (argument of Ident/Table/…) is covered by an object path the forward statement is built from in the same function", 15)
 	c.Rule("R17f", "alterTable builders: the reverse statement is stored only under `if reversible`, after sqlx.ReverseChanges(reverse) reversed the recorded changes", 4)
+	c.Rule("R17i", ruleTextFreshScratch, 4)
+	checkFreshScratchState(c, "R17i", []string{pSqlite, pMysql, pPostgres})
+	c.Rule("R17j", ruleTextReversal, 1)
+	checkReverseIdiom(c, "R17j")
 	for _, pp := range []string{pMysql, pPostgres} {
 		checkAlterPairing(c, pp)
 	}
